@@ -114,6 +114,7 @@ def request_from_env(op, env):
         (bank if root == BANK else bal)[fld] = str(int(v))
     req = {'fn': 'wrapper_op', 'op': op, 'bank': bank, 'balance': bal, 'clock': str(int(env.get('clock.unix_timestamp', 0)))}
     if 'x0' in env: req['amount'] = str(int(env['x0']))
+    if op == 'claim_emissions': req['now'] = req.get('amount', '0')     # the operation's argument is the current timestamp
     return req
 
 
